@@ -298,6 +298,10 @@ fn work_case(case: &Value) -> Value {
 }
 
 fn worker() {
+    // a runaway search must end as an observable death of the child, not exhaust the machine
+    let lim = libc::rlimit { rlim_cur: 6 << 30, rlim_max: 6 << 30 };
+    // SAFETY: plain syscall with a valid struct
+    unsafe { libc::setrlimit(libc::RLIMIT_AS, &lim) };
     let stdin = std::io::stdin();
     let stdout = std::io::stdout();
     for line in stdin.lock().lines() {
@@ -671,7 +675,7 @@ fn mutate(rng: &mut Rng, seg: &mut Value, ases: &[u64]) -> &'static str {
             if has && rng.chance(1, 2) {
                 es[i]["peers"][0]["pas"] = json!(a);
             } else {
-                es[i]["peers"].as_array_mut().unwrap().push(json!({"pas": a, "pif": rng.range(1, 99), "lif": rng.range(1, 99)}));
+                es[i]["peers"].as_array_mut().unwrap().push(json!({"pas": a, "pif": rng.range(0, 99), "lif": rng.range(0, 99)}));
             }
         }
         "Oversize" => {
